@@ -35,6 +35,7 @@ def frame():
     df["e0"] = ["b", "", "a", "", "b", "a", "b", ""]
     df["inc"] = [250000.0, 250000.5, 250001.0, 250000.5, 0.0001, 0.0, 250001.0, 0.0]  # distinct values that are "close"
     df["cu"] = pd.Categorical(df["f"], categories=["a", "d", "b", "c"])  # 'd' is declared but never occurs
+    df["fu"] = pd.Categorical(df["f"], categories=["c", "a", "b"])  # not ordered, categories stored in another order than sorted
     return df
 
 
@@ -69,7 +70,9 @@ def cases():
     pairs = [("B(f, 'b')", "binary(f, 'b')"), ("B(k)", "binary(k)"), ("standardize(x)", "scale(x)"), ("standardize(np.log(x))", "scale(np.log(x))"),
              ("T(f, 'c')", "C(f, Treatment('c'))"), ("T(f)", "C(f, Treatment)"), ("T(f)", "C(f)"), ("T(k, 20)", "C(k, Treatment(20))"), ("S(f, 'a')", "C(f, Sum('a'))"),
              ("S(f)", "C(f, Sum)"), ("S(o)", "C(o, Sum())"), ("T(f, ref='b')", "T(f, 'b')"), ("S(f, omit='b')", "S(f, 'b')"),
-             ("I(o)", "o"), ("{o}", "o"), ("I(f)", "f"), ("I(g)", "g"), ("T(z0, 0)", "C(z0, Treatment(0))"), ("S(z0, 0)", "C(z0, Sum(0))"), ("T(z0, 1)", "C(z0, Treatment(1))"), ("T(e0, 'b')", "C(e0, Treatment('b'))")]
+             ("I(o)", "o"), ("{o}", "o"), ("I(f)", "f"), ("I(g)", "g"), ("T(z0, 0)", "C(z0, Treatment(0))"), ("S(z0, 0)", "C(z0, Sum(0))"), ("T(z0, 1)", "C(z0, Treatment(1))"), ("T(e0, 'b')", "C(e0, Treatment('b'))"),
+             ("T(fu, 'c')", "C(fu, Treatment('c'))"), ("T(fu)", "C(fu, Treatment)"), ("T(fu)", "C(fu)"), ("S(fu, 'a')", "C(fu, Sum('a'))"), ("S(fu)", "C(fu, Sum)"), ("S(fu)", "C(fu, Sum())"),
+             ("T(cu)", "C(cu)"), ("S(cu, 'b')", "C(cu, Sum('b'))"), ("I(fu)", "fu"), ("C(fu)", "fu")]
     ctx = ["y ~ {a}", "y ~ 0 + {a}", "y ~ x + {a}:x", "y ~ ({a} | g)", "y ~ {a} + z"]
     for a, b in pairs:
         for c in ctx:
@@ -120,11 +123,17 @@ def check_case(case, acc):
             acc.calls += 1
             acc.traces += 1
             try:
-                got = np.asarray(dm.common.evaluate_new_data(nd)[name], dtype=float).reshape(len(nd), -1)
+                res = dm.common.evaluate_new_data(nd)
+                got = np.asarray(res[name], dtype=float).reshape(len(nd), -1)
+                view = res.as_dataframe()
+                shown = np.asarray(view[list(res.terms[name].labels)], dtype=float).reshape(len(view), -1)
             except Exception as e:
                 problems.append((what, exc_sig(e), f"{what}: new frame of rows {idx} raised {type(e).__name__}: {e}"))
                 return
             want = np.asarray(want_fn(nd), dtype=float).reshape(len(nd), -1)
+            if shown.shape != want.shape or not np.allclose(shown, want, rtol=1e-12, atol=0):
+                problems.append((what, "dataframe-view", f"{what}: as_dataframe() of the result for rows {idx} does not show the values of that frame"))
+                return
             if got.shape != want.shape or not np.allclose(got, want, rtol=1e-12, atol=0):
                 problems.append((what, "values", f"{what}: on the new frame of rows {idx} got {got.reshape(-1)[:6].tolist()}, expected {want.reshape(-1)[:6].tolist()}"))
                 return
